@@ -37,7 +37,23 @@ pub const SEAM_DROP: u8 = 41;
 pub const SEAM_BB: u8 = 42;
 /// a load or store (also relaxed/acquire/release atomic ones) of instrumented code (`sim_bb` build only)
 pub const SEAM_MEM: u8 = 43;
+/// a basic block that is executed for the first time in this process, or one of the few
+/// callbacks after it (`sim_bb` build, runs with the first-execution mode on); see `bb_point`
+pub const SEAM_NOVEL: u8 = 44;
 pub const N_SITE_IDS: usize = 48;
+
+/// The `bb_gap` parameter of a run carries two things: bits 0-15 the mean gap between two
+/// basic-block/load-store points, bits 16-23 the first-execution mode (0 = off, k = a thread that
+/// executes a basic block nobody executed before in this process is stalled with probability 1/k).
+pub fn bb_gap_of(x: u32) -> u32 {
+    x & 0xFFFF
+}
+pub fn bb_novel_of(x: u32) -> u32 {
+    (x >> 16) & 0xFF
+}
+pub fn bb_pack(gap: u32, novel_k: u32) -> u32 {
+    (gap & 0xFFFF) | ((novel_k & 0xFF) << 16)
+}
 
 pub fn site_name(s: u8) -> &'static str {
     match s {
@@ -67,6 +83,7 @@ pub fn site_name(s: u8) -> &'static str {
         41 => "SeamDrop",
         42 => "SeamBasicBlock",
         43 => "SeamLoadStore",
+        44 => "SeamFirstExecution",
         _ => "?",
     }
 }
@@ -147,6 +164,10 @@ struct PolicyState {
     low_prio: u32,
     stall_len: u64,
     stalled_until: Vec<u64>,
+    /// first-execution mode: stall probability 1/novel_k at a SEAM_NOVEL point (0 = off)
+    novel_k: u32,
+    novel_stall: u64,
+    novel_stalls: u64,
 }
 
 impl PolicyState {
@@ -186,13 +207,29 @@ impl PolicyState {
             low_prio: 999,
             stall_len,
             stalled_until: vec![0; n],
+            novel_k: 0,
+            // not drawn from `rng`: the streams of runs without the mode stay what they were
+            novel_stall: [16u64, 64, 256, 1024, 4096][((seed >> 7) % 5) as usize],
+            novel_stalls: 0,
         }
     }
 
-    fn decide(&mut self, eligible: &[usize], cur: Option<usize>, step: u64) -> usize {
+    fn decide(&mut self, eligible: &[usize], cur: Option<usize>, step: u64, novel: bool) -> usize {
         debug_assert!(!eligible.is_empty());
         let cur_ok = cur.filter(|c| eligible.contains(c));
-        let next = match self.kind {
+        if novel && self.novel_k != 0 {
+            // the running thread is in code that never ran before in this process (a first use, a
+            // threshold that was just crossed, a resize, an eviction): let it sit there while the
+            // others get on - under every policy
+            if let Some(c) = cur_ok {
+                let other_awake = eligible.iter().any(|t| *t != c && self.stalled_until[*t] <= step);
+                if other_awake && self.rng.chance(1, self.novel_k) {
+                    self.stalled_until[c] = step + self.novel_stall;
+                    self.novel_stalls += 1;
+                }
+            }
+        }
+        let mut next = match self.kind {
             PolicyKind::Random => *self.rng.pick(eligible),
             PolicyKind::Sticky => match cur_ok {
                 Some(c) if !self.rng.chance(1, self.quantum as u32) => c,
@@ -244,6 +281,12 @@ impl PolicyState {
                 },
             },
         };
+        if self.novel_k != 0 && self.kind != PolicyKind::Stall && self.stalled_until[next] > step {
+            let awake: Vec<usize> = eligible.iter().copied().filter(|t| self.stalled_until[*t] <= step).collect();
+            if !awake.is_empty() {
+                next = *self.rng.pick(&awake);
+            }
+        }
         if Some(next) == cur {
             self.since_switch += 1;
         } else {
@@ -279,6 +322,9 @@ pub struct SimReport {
     pub sw_in_errpath: u64,
     pub faults_fired: Vec<(FaultSpec, u8)>,
     pub ext_block_events: u64,
+    /// stalls of a thread at a first-execution point (SEAM_NOVEL)
+    #[serde(default)]
+    pub novel_stalls: u64,
     pub diverged: bool,
     pub step_capped: bool,
     pub trace_digest: u64,
@@ -345,8 +391,16 @@ pub struct BbTls {
     in_point: u32,
     in_log: u32,
     log_on: u32,
+    /// first-execution mode on (see SEAM_NOVEL)
+    novel_on: u32,
+    /// callbacks left in the dense stretch behind a first execution
+    dense: u32,
     pub log: Vec<u64>,
 }
+
+/// true while the main thread warms the process up / ages it: basic blocks executed then count as
+/// executed before (they are not first executions inside the run)
+pub static BB_MARK_ALL: std::sync::atomic::AtomicBool = std::sync::atomic::AtomicBool::new(false);
 
 static mut BB_KEY: u32 = u32::MAX;
 
@@ -379,10 +433,14 @@ fn bb_tls() -> *mut BbTls {
 }
 
 fn bb_attach(gap: u32, seed: u64, tid: usize, log_on: bool) {
+    let novel_on = (bb_novel_of(gap) != 0) as u32;
+    let gap = bb_gap_of(gap);
     if gap == 0 {
         return;
     }
     let t = Box::new(BbTls {
+        novel_on,
+        dense: 0,
         gap,
         countdown: 1 + (tid as u32 * 7) % 13,
         rng: (seed ^ 0x9E37_79B9_7F4A_7C15u64.wrapping_mul(tid as u64 + 1)) | 1,
@@ -425,10 +483,21 @@ fn bb_set_in_point(v: u32) {
 /// sequence of points is a function of the code path only) and an ordinary scheduling point is
 /// taken. Gaps are a mixture: mostly around the configured mean, sometimes 1-3 callbacks, so that
 /// windows of a few instructions are split as well.
+///
+/// First-execution mode: `guard` is the basic block's guard word (null for loads and stores). It
+/// is non-zero until the block has been executed once in this process by the warm-up or by a
+/// simulated thread. Rarely executed code is where state changes shape (first use, threshold
+/// crossed, resize, eviction, tier-up), so a first execution is always a scheduling point (site
+/// SEAM_NOVEL, at which the scheduler may stall the thread for long), and so is every fourth of the
+/// 16 callbacks behind it. Only simulated threads that hold the baton (and the main thread during
+/// warm-up) clear guards, so which executions are first ones is a function of seed and code.
 #[inline(always)]
-pub fn bb_point(site: u8, ra: u64) {
+pub fn bb_point(site: u8, ra: u64, guard: *mut u32) {
     let t = bb_tls();
     if t.is_null() {
+        if !guard.is_null() && BB_MARK_ALL.load(std::sync::atomic::Ordering::Relaxed) {
+            unsafe { std::ptr::write_volatile(guard, 0) };
+        }
         return;
     }
     let t = unsafe { &mut *t };
@@ -440,27 +509,45 @@ pub fn bb_point(site: u8, ra: u64) {
         t.log.push(ra);
         t.in_log = 0;
     }
+    let mut force = false;
+    if t.novel_on != 0 {
+        if !guard.is_null() && unsafe { std::ptr::read_volatile(guard) } != 0 {
+            unsafe { std::ptr::write_volatile(guard, 0) };
+            t.dense = 16;
+            force = true;
+        } else if t.dense != 0 {
+            t.dense -= 1;
+            let mut x = t.rng;
+            x ^= x >> 12;
+            x ^= x << 25;
+            x ^= x >> 27;
+            t.rng = x;
+            force = (x.wrapping_mul(0x2545_F491_4F6C_DD1D) >> 33) % 4 == 0;
+        }
+    }
     t.countdown = t.countdown.wrapping_sub(1);
-    if t.countdown != 0 {
+    if t.countdown != 0 && !force {
         return;
     }
-    // xorshift64*
-    let mut x = t.rng;
-    x ^= x >> 12;
-    x ^= x << 25;
-    x ^= x >> 27;
-    t.rng = x;
-    let r = x.wrapping_mul(0x2545_F491_4F6C_DD1D) >> 33;
-    let gap = t.gap as u64;
-    let next = match r % 8 {
-        0 | 1 => 1 + (r >> 3) % 3,
-        2 => 1 + (r >> 3) % 24,
-        _ => 1 + (r >> 3) % (2 * gap),
-    };
-    t.countdown = next as u32;
+    if t.countdown == 0 {
+        // xorshift64*
+        let mut x = t.rng;
+        x ^= x >> 12;
+        x ^= x << 25;
+        x ^= x >> 27;
+        t.rng = x;
+        let r = x.wrapping_mul(0x2545_F491_4F6C_DD1D) >> 33;
+        let gap = t.gap as u64;
+        let next = match r % 8 {
+            0 | 1 => 1 + (r >> 3) % 3,
+            2 => 1 + (r >> 3) % 24,
+            _ => 1 + (r >> 3) % (2 * gap),
+        };
+        t.countdown = next as u32;
+    }
     // everything `point` calls is instrumented: no nested basic-block points from in there
     t.in_point = 1;
-    point(site);
+    point(if force { SEAM_NOVEL } else { site });
     let t = bb_tls();
     if !t.is_null() {
         unsafe { (*t).in_point = 0 };
@@ -541,14 +628,14 @@ impl Inner {
     }
 
     /// Takes one scheduling decision and records it.
-    fn decide(&mut self, cur: Option<usize>) -> Option<usize> {
+    fn decide(&mut self, cur: Option<usize>, novel: bool) -> Option<usize> {
         let el = self.eligible();
         if el.is_empty() {
             return None;
         }
         let step = self.step;
         let next = match &mut self.decider {
-            Decider::Policy(p) => p.decide(&el, cur, step),
+            Decider::Policy(p) => p.decide(&el, cur, step, novel),
             Decider::Strict(rec, pos) => {
                 let want = rec.get(*pos).map(|b| *b as usize);
                 *pos += 1;
@@ -611,7 +698,11 @@ pub enum Done {
 impl Sim {
     pub fn new(n: usize, source: Source, faults: Vec<FaultSpec>, max_steps: u64, alloc_every: u32, bb_gap: u32, bb_seed: u64) -> Arc<Sim> {
         let decider = match source {
-            Source::Policy { kind, seed } => Decider::Policy(PolicyState::new(kind, seed, n)),
+            Source::Policy { kind, seed } => {
+                let mut p = PolicyState::new(kind, seed, n);
+                p.novel_k = bb_novel_of(bb_gap);
+                Decider::Policy(p)
+            }
             Source::Strict(v) => Decider::Strict(v, 0),
             Source::Lenient(v) => Decider::Lenient(v, 0),
         };
@@ -664,7 +755,7 @@ impl Sim {
     /// Called by the main thread once all simulated threads are spawned.
     pub fn start(&self) {
         let mut g = lock(&self.inner);
-        if let Some(first) = g.decide(None) {
+        if let Some(first) = g.decide(None, false) {
             g.current = Some(first);
             self.cvs[first].notify_one();
         } else {
@@ -708,7 +799,7 @@ impl Sim {
             // somebody else holds the baton; nothing to hand over
             return;
         }
-        match g.decide(Some(tid)) {
+        match g.decide(Some(tid), false) {
             Some(next) => {
                 g.current = Some(next);
                 self.cvs[next].notify_one();
@@ -766,7 +857,7 @@ impl Sim {
             g.rep.step_capped = true;
             return;
         }
-        let next = g.decide(Some(tid)).expect("the running thread is eligible");
+        let next = g.decide(Some(tid), site == SEAM_NOVEL).expect("the running thread is eligible");
         if next != tid {
             if site == SITE_OP_BOUNDARY {
                 g.rep.switches_boundary += 1;
@@ -880,6 +971,9 @@ impl Sim {
         r.steps = g.step;
         r.trace_digest = g.digest.0;
         r.schedule = g.schedule.clone();
+        if let Decider::Policy(p) = &g.decider {
+            r.novel_stalls = p.novel_stalls;
+        }
         r
     }
 }
